@@ -1,7 +1,11 @@
 import NanoVerif.Model.DriverMain
-/-! line-protocol driver of C02 (must not import Mathlib, directly or indirectly); stub until the family exists -/
+import NanoVerif.Driver.Solver
+/-! line-protocol driver of C02 (must not import Mathlib, directly or indirectly) -/
 open NanoVerif
 
-def handle (_fam : String) (_rest : List String) : Option String := none
+def handle (fam : String) (rest : List String) : Option String :=
+  match fam with
+  | "solver2" => Driver.Solver.handleC02 rest
+  | _ => none
 
 def main : IO Unit := DriverMain.run handle
